@@ -71,6 +71,38 @@ THEOREMS = [
      "(forall s, In s (map fst reqs) -> (count_occ N.eq_dec sched s >= 2)%nat) -> "
      "NoDup (map (fun o => fst (fst o)) (" + _RUN + ")) /\\ "
      "forall (s : N) (r0 : request), In (s, r0) reqs -> exists rp, In (s, r0, rp) (" + _RUN + ")"),
+    ("send_never_panics",
+     "forall (checked : bool) (error_page : N -> resp) (pkg : N -> headers -> headers) (p : proto) (secure : bool) "
+     "(alt : option bytes) (m : N) (path_ok : bool) (hdr : option bytes) (r : resp), "
+     "N.of_nat (length (rs_body r)) <= u64_max -> send checked error_page pkg p secure alt m (sd_of path_ok hdr) r <> Panic"),
+    ("history_parity",
+     _LAYER + "(cache_on ims_on : bool) (parse_ims : bytes -> option Z) (sanitize_ok : request -> bool) (prime : request -> request) "
+     "(negotiate : request -> fat -> option (N * bytes)) (vary_tuple : request -> tuple) "
+     "(vary_header : request -> fat -> list (bytes * bytes)) (checked : bool) (error_page : N -> resp) "
+     "(pkg : N -> headers -> headers) (alt : option bytes) (sanitize : request -> outcome (option (N * N))) "
+     "(encode : request -> N -> headers -> bytes -> headers * bytes) (hversion : N) (wants : state hstate -> request -> option N), "
+     "pkg_oblivious pkg -> forall (secure1 : bool) (st : state hstate) (now dt : N) (bs : list breq), "
+     "Forall (fun b => pr_no_request_body (rq_method (b_req b)) = true -> b_len b = 0) bs -> "
+     "Forall (fun w => w <> Panic) (answers " + _ANSWER_ARGS + " H2 true st now dt bs) -> "
+     "conn_hist " + _ANSWER_ARGS + " wants H1 true secure1 st now dt bs = map Some (answers " + _ANSWER_ARGS + " H1 secure1 st now dt bs) /\\ "
+     "conn_hist " + _ANSWER_ARGS + " wants H2 true true st now dt bs = map Some (answers " + _ANSWER_ARGS + " H2 true st now dt bs) /\\ "
+     "map onorm (answers " + _ANSWER_ARGS + " H1 secure1 st now dt bs) = map onorm (answers " + _ANSWER_ARGS + " H2 true st now dt bs)"),
+    ("pair_history_answered",
+     "forall (checked : bool) (ops : list pkg_op) (alt : option bytes) (e416 : resp), "
+     "Forall (fun o => hop (pkg_op_name o) = false) ops -> forall (secure1 : bool) (exs : list exch), "
+     "Forall (fun e => (pr_no_request_body (ex_method e) = true -> ex_blen e = 0) /\\ N.of_nat (length (rs_body (ex_l4 e))) <= u64_max) exs -> "
+     "forallb is_resp (pair_hist checked ops alt e416 H1 true secure1 exs) = true /\\ "
+     "forallb is_resp (pair_hist checked ops alt e416 H2 true true exs) = true /\\ "
+     "map (option_map onorm) (pair_hist checked ops alt e416 H1 true secure1 exs) = "
+     "map (option_map onorm) (pair_hist checked ops alt e416 H2 true true exs)"),
+    ("unread_request_body_v0_refuted",
+     "exists checked ops alt e416 exs, Forall (fun e => pr_no_request_body (ex_method e) = true -> ex_blen e = 0) exs /\\ "
+     "forallb is_resp (pair_hist checked ops alt e416 H1 false true exs) = false /\\ "
+     "forallb is_resp (pair_hist checked ops alt e416 H2 false true exs) = true /\\ "
+     "forallb is_resp (pair_hist checked ops alt e416 H1 true true exs) = true"),
+    ("undeclared_request_body_refuted",
+     "exists checked ops alt e416 exs, forallb is_resp (pair_hist checked ops alt e416 H1 true true exs) = false /\\ "
+     "forallb is_resp (pair_hist checked ops alt e416 H2 true true exs) = true"),
 ]
 
 RULE = ("Real kvarn::handle_connection on loopback TCP pairs, TLS by a rustls ServerConfig from HostCollection::make_config (ALPN from "
@@ -180,6 +212,11 @@ PKG_MENUS = [
 ]
 
 
+# handlers that read only the first n bytes of the request body (read_to_bytes(n)); /echo reads all of it (up to 1 MiB)
+ECHON = {b"/echo3": 3, b"/echo100": 100}
+READS = dict(list(ECHON.items()) + [(b"/echo", 1 << 20)])
+
+
 def host_cfg(cache, pkg, with_files=True, slow=(), ctlen=True):
     hs = [H(b"/p", TEXT, headers=[(b"content-type", b"text/plain"), (b"x-h", b"p")], spref=2, compress=True),
           H(b"/n", TEXT[:150], headers=[(b"content-type", b"text/plain")], spref=0, compress=True),
@@ -199,7 +236,8 @@ def host_cfg(cache, pkg, with_files=True, slow=(), ctlen=True):
     hs.append(H(b"/te", b"t" * 10, headers=[(b"te", b"trailers"), (b"x-h", b"te")], spref=2))
     kvs = [xl(xb("cache"), xbool(cache)), xl(xb("handlers"), xlist(hs)),
            xl(xb("pkg"), xlist([xl(xz(p), xn(k), xb(n), xb(v)) for p, k, n, v in pkg])),
-           xl(xb("echo"), xlist([xb(b"/echo")]))]
+           xl(xb("echo"), xlist([xb(b"/echo")])),
+           xl(xb("echon"), xlist([xl(xb(p), xn(n)) for p, n in sorted(ECHON.items())]))]
     if with_files:
         kvs.append(xl(xb("files"), xlist([xl(xb("public/f.txt"), xb(TEXT)), xl(xb("public/b.bin"), xb(BIN)),
                                           xl(xb("public/index.html"), xb(INDEX)), xl(xb("public/e.txt"), xb(b""))])))
@@ -262,7 +300,10 @@ def exchanges(reqs, pr):
         else:
             v = pr[1][k][1]
             l4, sd = xl(*v[:4]), v[4][1]
-        exs.append(xl(xb(m), xopt(None if rg is None else xb(rg)), xbool(sd != 1), l4))
+        # [want]: the handler that answers calls read_to_bytes(want) — the body-reading handlers answer 200, and are not
+        # run when sanitize_request refuses the request (416 / 400: layer 4 answers the error page)
+        want = READS.get(t.split(b"?")[0]) if l4[1][1] == ("N", 200) and sd == 0 else None
+        exs.append(xl(xb(m), xopt(None if rg is None else xb(rg)), xbool(sd != 1), l4, xn(len(b)), xopt(None if want is None else xn(want))))
     e416 = EMPTY_RESP if pr is None else xl(*pr[0][1][:4])
     return e416, xlist(exs)
 
@@ -282,9 +323,21 @@ def range_values(rng):
                        b"items=0-1", b"bytes=0-%d" % (n - 1), b"bytes=3-100000"])
 
 
+# methods whose content-length kvarn's HTTP/1 reader honours (utils::get_body_length_request)
+BODY_METHODS = (b"POST", b"PUT", b"DELETE", b"PATCH")
+BODY_SIZES = [1, 2, 5, 64, 99, 100, 101, 700, 5000, 5000, 20000, 65535, 65536, 70000, 150000]
+
+
+def rand_body(rng, n):
+    if n > 2000:
+        seed = bytes(rng.randrange(32, 127) for _ in range(97))
+        return (seed * (n // 97 + 1))[:n]
+    return bytes(rng.randrange(32, 127) for _ in range(n))
+
+
 def rand_request(rng, focus=None):
     t = rng.choice(focus) if focus and rng.random() < 0.7 else rng.choice(PATHS)
-    m = rng.choice([b"GET", b"GET", b"GET", b"GET", b"HEAD", b"HEAD", b"POST", b"OPTIONS", b"PUT"])
+    m = rng.choice([b"GET", b"GET", b"GET", b"GET", b"HEAD", b"HEAD", b"POST", b"OPTIONS", b"PUT", b"POST", b"PUT", b"DELETE", b"PATCH"])
     hs = []
     if rng.random() < 0.55:
         ae = rng.choice(AES)
@@ -299,10 +352,13 @@ def rand_request(rng, focus=None):
     if rng.random() < 0.1:
         hs.append((b"x-custom", b"v" * rng.randrange(1, 40)))
     body = b""
-    if m in (b"POST", b"PUT") and rng.random() < 0.8:
-        t = b"/echo"      # a body is only sent to the handler that reads it (an unread HTTP/1 body is C08's subject)
-        hs = [h for h in hs if h[0] not in (b"range", b"if-modified-since")]   # ... and only when that handler is run
-        body = bytes(rng.randrange(32, 127) for _ in range(rng.choice([1, 5, 64, 700, 5000])))
+    if m in BODY_METHODS and rng.random() < 0.8:
+        # a request body, for whatever answers: a handler that reads all of it (/echo), part of it (/echo3, /echo100), or
+        # nothing at all (pages, files, 404 / 405 / 416 / 400 answers, cache hits) - the rest of the history follows on
+        # the same connection.  Sizes around the HTTP/2 initial flow-control window (65535) need WINDOW_UPDATEs.
+        if rng.random() < 0.5:
+            t = rng.choice([b"/echo", b"/echo", b"/echo3", b"/echo100"])
+        body = rand_body(rng, rng.choice(BODY_SIZES))
         hs.append((b"content-length", b"%d" % len(body)))
     return R(m, t, hs, body)
 
@@ -320,6 +376,7 @@ def history(rng):
     return reqs
 
 
+SMUGGLE = b"GET /s HTTP/1.1\r\nhost: x\r\n\r\n"     # an unread body that looks like a request must not be answered
 DIRECTED_HISTORIES = [
     # the defect repaired by the fix commit: a handler-supplied content-length after compression / range, over HTTP/2
     [R(b"GET", b"/cl", [(b"accept-encoding", b"gzip")]), R(b"GET", b"/cl"), R(b"GET", b"/cl", [(b"range", b"bytes=10-19")]),
@@ -343,6 +400,25 @@ DIRECTED_HISTORIES = [
     # the second repaired defect: connection-specific headers on a handler's response, over HTTP/2
     [R(b"GET", b"/ka"), R(b"HEAD", b"/ka"), R(b"GET", b"/up"), R(b"GET", b"/up", [(b"accept-encoding", b"gzip")]), R(b"GET", b"/te"),
      R(b"GET", b"/up", [(b"range", b"bytes=3-8")]), R(b"GET", b"/p")],
+    # the defect repaired by dfe4d54 (the former known class h1-unread-request-body): a request body that nobody reads -
+    # the Range is refused (416), the handler is not run - followed by further requests on the same connection
+    [R(b"PUT", b"/echo", [(b"range", b"bytes=10-4"), (b"content-length", b"700")], b"u" * 700), R(b"GET", b"/p"),
+     R(b"POST", b"/echo", [(b"content-length", b"4")], b"next"), R(b"HEAD", b"/p")],
+    # unread bodies of every answer class: 405 / 404 / 200 page / cache hit / 400 unsafe path / 416, then a body that IS read
+    [R(b"POST", b"/f.txt", [(b"content-length", b"10")], b"0123456789"), R(b"GET", b"/f.txt"),
+     R(b"POST", b"/missing", [(b"content-length", b"64")], b"m" * 64), R(b"PUT", b"/p", [(b"content-length", b"5000")], b"p" * 5000),
+     R(b"GET", b"/p"), R(b"POST", b"/p", [(b"content-length", b"%d" % len(SMUGGLE))], SMUGGLE),
+     R(b"DELETE", b"/./x", [(b"content-length", b"9")], b"traversal"), R(b"PATCH", b"/n", [(b"range", b"bytes=900-"), (b"content-length", b"3")], b"abc"),
+     R(b"POST", b"/echo", [(b"content-length", b"6")], b"read-6"), R(b"GET", b"/missing")],
+    # partly read bodies (read_to_bytes(3) / (100)), lengths around the limit
+    [R(b"POST", b"/echo3", [(b"content-length", b"2")], b"ab"), R(b"POST", b"/echo3", [(b"content-length", b"3")], b"abc"),
+     R(b"POST", b"/echo3", [(b"content-length", b"4")], b"abcd"), R(b"GET", b"/q?after=partial"),
+     R(b"PUT", b"/echo100", [(b"content-length", b"5000")], bytes(48 + i % 10 for i in range(5000))), R(b"HEAD", b"/echo3"),
+     R(b"POST", b"/echo100", [(b"content-length", b"100")], b"c" * 100), R(b"POST", b"/echo", [(b"content-length", b"1")], b"!")],
+    # bodies larger than the HTTP/2 initial window (65535): read completely (WINDOW_UPDATEs needed), partly, not at all
+    [R(b"POST", b"/echo", [(b"content-length", b"70000")], b"W" * 70000), R(b"POST", b"/echo3", [(b"content-length", b"70000")], b"X" * 70000),
+     R(b"PUT", b"/f.txt", [(b"content-length", b"70000")], b"Y" * 70000), R(b"POST", b"/missing", [(b"content-length", b"66000")], b"Z" * 66000),
+     R(b"POST", b"/echo", [(b"content-length", b"150000")], bytes(97 + i % 23 for i in range(150000))), R(b"GET", b"/p")],
     # empty bodies
     [R(b"GET", b"/empty"), R(b"HEAD", b"/empty"), R(b"GET", b"/e.txt"), R(b"GET", b"/empty", [(b"range", b"bytes=0-0")]), R(b"GET", b"/short", [(b"accept-encoding", b"gzip")])],
 ]
@@ -366,17 +442,36 @@ def gen_pairs(rng, n_random, kind="pair"):
     return [pair_case(job[0], pkg, h, pr, s1, k) for (c, pkg, h, s1, k), job, pr in zip(plans, jobs, prs)]
 
 
-def gen_known(rng):
-    """the known class, replayed on the real server: a request body that nobody reads (the handler is not run: sanitize
-    refuses the Range) desynchronises HTTP/1.1"""
-    plans = [([R(b"PUT", b"/echo", [(b"range", b"bytes=10-4"), (b"content-length", b"700")], b"u" * 700), R(b"GET", b"/p")],
-              "known-unread-body")]
-    jobs = [(host_cfg(True, []), h, 0) for h, _ in plans]
+UNREAD_HISTORIES = [
+    # the witness of the former known finding
+    [R(b"PUT", b"/echo", [(b"range", b"bytes=10-4"), (b"content-length", b"700")], b"u" * 700), R(b"GET", b"/p")],
+    [R(b"POST", b"/f.txt", [(b"content-length", b"10")], b"0123456789"), R(b"GET", b"/f.txt")],
+    [R(b"POST", b"/echo3", [(b"content-length", b"12")], b"GET / HTTP/1"), R(b"GET", b"/p"), R(b"POST", b"/missing", [(b"content-length", b"3000")], b"x" * 3000),
+     R(b"HEAD", b"/p")],
+    [R(b"POST", b"/p", [(b"content-length", b"70000")], b"L" * 70000), R(b"POST", b"/echo", [(b"content-length", b"2")], b"ok")],
+]
+
+
+def gen_answered(rng, n_random):
+    """proto.answered: is EVERY request of a history answered, on the HTTP/1.1 and on the HTTP/2 connection (and the framing
+    intact afterwards: sentinel)?  Histories made of requests whose body is not read, or only in part"""
+    plans = [(h, "answered-directed") for h in UNREAD_HISTORIES]
+    for _ in range(n_random):
+        h = []
+        for _ in range(rng.randrange(2, 6)):
+            m = rng.choice(BODY_METHODS)
+            t = rng.choice([b"/p", b"/f.txt", b"/missing", b"/echo3", b"/echo100", b"/n", b"/./x", b"/echo", b"/q?a=1", b"/nf"])
+            hs = [(b"range", rng.choice([b"bytes=10-4", b"bytes=0-1", b"bytes=99999-"]))] if rng.random() < 0.3 else []
+            body = rand_body(rng, rng.choice(BODY_SIZES))
+            h.append(R(m, t, hs + [(b"content-length", b"%d" % len(body))], body))
+            if rng.random() < 0.5:
+                h.append(R(rng.choice([b"GET", b"HEAD"]), rng.choice([b"/p", b"/f.txt", b"/missing"])))
+        plans.append((h, "answered"))
+    jobs = [(host_cfg(i % 2 == 0, []), h, 0) for i, (h, _) in enumerate(plans)]
     prs = probe(jobs)
-    cases = [pair_case(job[0], [], h, pr, True, k) for (h, k), job, pr in zip(plans, jobs, prs)]
+    cases = [pair_case(job[0], [], h, pr, i % 3 != 2, k) for i, ((h, k), job, pr) in enumerate(zip(plans, jobs, prs))]
     for c in cases:
-        if c.meta["kind"] == "known-unread-body":
-            c.comp, c.spec = "proto.answered", "proto.answered_spec"
+        c.comp, c.spec = "proto.answered", "proto.answered_spec"
     return cases
 
 
@@ -439,10 +534,18 @@ def burst_plan(rng, n):
                 hs.append((b"accept-encoding", rng.choice([b"gzip", b"br"])))
             if rng.random() < 0.3:
                 hs.append((b"range", rng.choice([b"bytes=0-9", b"bytes=20-29"])))
-        else:
+        elif u < 0.9:
             t, m = b"/echo", b"POST"
-            body = b"stream-%d-" % s + bytes(rng.randrange(97, 123) for _ in range(rng.choice([3, 40, 2000])))
+            body = b"stream-%d-" % s + rand_body(rng, rng.choice([3, 40, 2000, 2000, 70000]))
             hs.append((b"content-length", b"%d" % len(body)))
+        else:
+            # a body that is read in part or not at all, among the other streams
+            t = rng.choice([b"/echo3", b"/echo100", b"/p", b"/f.txt", b"/missing", rng.choice(slow)[0]])
+            m = rng.choice(BODY_METHODS)
+            body = b"unread-%d-" % s + rand_body(rng, rng.choice([1, 90, 5000, 70000]))
+            hs.append((b"content-length", b"%d" % len(body)))
+            if t.startswith(b"/slow"):
+                hs.append((b"x-delay", b"%d" % rng.choice([0, 40, 120, 200])))
         reqs.append(R(m, t, hs, body))
     return cache, slow, reqs
 
@@ -460,7 +563,7 @@ def burst_cases(cfg, pkg, cache, slow, reqs, pr, kind, with_h1):
         elif path == b"/q":
             cacheable, cls = cache, t
         else:
-            cacheable, cls = cache and path not in (b"/n", b"/echo"), path
+            cacheable, cls = cache and path not in (b"/n", b"/echo") and path not in ECHON, path
         cacheable = cacheable and m in (b"GET", b"HEAD")
         strs.append(xl(xn(s + 1), xb(cls + b"|" + d.get(b"accept-encoding", b"")), xbool(cacheable)))
         delays.append(int(d.get(b"x-delay", b"0")))
@@ -493,9 +596,9 @@ def gen_bursts(rng, sizes, kind="burst"):
 
 def generate(rng, tier):
     if tier == "thorough":
-        cases = gen_pairs(rng, 1600) + gen_servers(rng, 40) + gen_mini(rng, 100) + gen_known(rng) + gen_bursts(rng, [2, 3, 4, 6, 8, 12, 16, 24, 32] * 16 + [32] * 6)
+        cases = gen_pairs(rng, 1600) + gen_servers(rng, 40) + gen_mini(rng, 100) + gen_answered(rng, 150) + gen_bursts(rng, [2, 3, 4, 6, 8, 12, 16, 24, 32] * 16 + [32] * 6)
     else:
-        cases = gen_pairs(rng, 50) + gen_servers(rng, 6) + gen_mini(rng, 16) + gen_known(rng) + gen_bursts(rng, [2, 3, 5, 9, 16, 24, 32])
+        cases = gen_pairs(rng, 50) + gen_servers(rng, 6) + gen_mini(rng, 16) + gen_answered(rng, 6) + gen_bursts(rng, [2, 3, 5, 9, 16, 24, 32])
     return cases
 
 
@@ -624,20 +727,8 @@ def extra_oracle(c, i):
     return None
 
 
-def unread_body(c):
-    """some request of the history carries a body that no handler reads"""
-    reqs, exs = c.x[1][1][1][1][1], c.x[1][5][1]
-    for r, e in zip(reqs, exs):
-        target, body = r[1][1][1], r[1][3][1]
-        l4_status = e[1][3][1][1][1]
-        if body and (target != b"/echo" or l4_status != 200):
-            return True
-    return False
-
-
 def classify(c, i):
-    if c.comp == "proto.answered" and i == "(L (N 0) (N 1))" and unread_body(c):
-        return "h1-unread-request-body"
+    # no known class: h1-unread-request-body was repaired by dfe4d54 (fixed: line in known-findings.txt)
     return None
 
 
